@@ -39,7 +39,7 @@ func c13Universe() []types.MalType {
 		nil, 0, 1, 2, 3, -1, "a", "", K("a"), K("b"), S("s"), true,
 		L(), L(1), L(1, 2), L(1, 2, 3), L(nil), L(L(1), 2),
 		V(), V(1), V(1, 2), V(1, 2, 3), V(V(1, 2), V(3)), V(K("a")), V(K("a"), K("b")), V(0), V(1, 0),
-		hmOf(), hmOf(K("a"), 1), hmOf(K("a"), 1, K("b"), 2), hmOf("a", 1), hmOf(K("a"), hmOf(K("b"), 1)), hmOf(K("a"), nil), hmOf(K("a"), V(1, 2)), hmOf(K("a"), K("b")), hmOf(K("a"), K("b"), K("b"), K("a")),
+		hmOf(), hmOf(K("a"), 1), hmOf(K("a"), 1, K("b"), 2), hmOf("a", 1), hmOf(K("a"), hmOf(K("b"), 1)), hmOf(K("a"), nil), hmOf(K("a"), V(1, 2)), hmOf(K("a"), K("b")), hmOf(K("a"), K("b"), K("b"), K("a")), hmOf(K("a"), K("b"), K("b"), K("c")), hmOf(K("a"), K("b"), K("b"), K("c"), K("c"), K("a")), hmOf(K("a"), 1, K("b"), 2, K("c"), 3),
 		setOf(), setOf("a"), setOf("a", K("b")),
 	}
 }
@@ -49,7 +49,7 @@ var c13Unordered = map[string]bool{"keys": true, "vals": true}
 
 func runC13(tier string, seed uint64, rep *Report) {
 	rep.Rule = "calls (f 'a1 .. 'ak) of every modelled collection builtin through EVAL: (i) all argument tuples of length 0..2 (0..3 for a subset) over a " +
-		"39-value universe (nil, empty/one/two-element lists, vectors, maps, sets, indices -1..3, keyword and string keys, nested, nil values), exhaustive; " +
+		"42-value universe (nil, empty/one/two-element lists, vectors, maps, sets, indices -1..3, keyword and string keys, nested, nil values), exhaustive; " +
 		"(ii) seeded random compositions of builtins (length <= 6 quick, <= 8 thorough); (iii) abstract-datatype laws evaluated on the implementation " +
 		"(direct oracle, model-free): get/assoc/dissoc/contains?/merge/conj/take+drop/cons+first+rest/count laws on random values. " +
 		"Results that depend on map iteration order (keys, vals, seq/vec of a set with >1 member) are compared as sets. Non-trivial: a collection argument is non-empty."
@@ -105,7 +105,20 @@ func runC13(tier string, seed uint64, rep *Report) {
 			}
 		}
 		if f == "rename-keys" && len(args) == 2 && multi(args[1]) {
-			return nil // two renamings may collide: result is order dependent also in Clojure
+			// several renamings at once are simultaneous (as in Clojure) and deterministic as long as no two of
+			// them have the same target and every target is a key; otherwise the result depends on map order
+			seen := map[string]bool{}
+			alt, isMap := args[1].(types.HashMap)
+			if !isMap {
+				return nil
+			}
+			for _, t := range alt.Val {
+				ts, ok := t.(string)
+				if !ok || seen[ts] {
+					return nil
+				}
+				seen[ts] = true
+			}
 		}
 		if orderDep {
 			if f == "vals" {
@@ -217,6 +230,15 @@ func runC13(tier string, seed uint64, rep *Report) {
 		law("assoc-in-creates-path", Call("=", Call("get-in", Call("assoc-in", qm, V(K("zz"), k2), qv), V(K("zz"), k2)), qv))
 		law("update-in-creates-path", Call("=", Call("get-in", Call("update-in", qm, V(K("zz"), k2), Call("fn", V(S("x")), qv)), V(K("zz"), k2)), qv))
 		law("count-keys", Call("=", Call("count", Call("keys", qm)), Call("count", qm)))
+		// renaming is simultaneous: a swap is an involution, a merge-preferring README example, sizes are kept
+		swap := types.HashMap{Val: map[string]types.MalType{k: k2, k2: k}}
+		if k != k2 {
+			both := Call("assoc", Call("assoc", qm, k, 1), k2, 2)
+			law("rename-keys-swap", Call("=", Call("rename-keys", both, swap), Call("assoc", Call("assoc", qm, k, 2), k2, 1)))
+			law("rename-keys-swap-twice", Call("=", Call("rename-keys", Call("rename-keys", both, swap), swap), both))
+			law("rename-keys-cycle-keeps-size", Call("=", Call("count", Call("rename-keys", Call("assoc", both, K("zq"), 3), types.HashMap{Val: map[string]types.MalType{k: k2, k2: K("zq"), K("zq"): k}})), Call("count", Call("assoc", both, K("zq"), 3))))
+			law("merge-second-takes-precedence", Call("=", Call("merge", Call("hash-map", k, 1), Call("hash-map", k, 2, k2, 3)), Call("hash-map", k, 2, k2, 3)))
+		}
 		var seq []types.MalType
 		for j, nn := 0, r.Intn(5); j < nn; j++ {
 			seq = append(seq, GenScalar(r))
